@@ -559,8 +559,8 @@ def main():
         if kc.get("tier") == "thorough" and tier != "thorough":
             continue
         # quick tier: a change that makes CBMC blow up (seed C15-b: tendermint Height::try_from in EdsId::decode, > 30 min) is left
-        # undecided after 15 min and decided by the native enumerator below; the unchanged tree needs < 3 min warm
-        kr = run_kani(kc["pkg"], kc["harnesses"], timeout=kc.get("timeout", 1800 if tier == "thorough" else 900))
+        # undecided after 20 min and decided by the native enumerator below; the unchanged tree needs < 3 min warm
+        kr = run_kani(kc["pkg"], kc["harnesses"], timeout=kc.get("timeout", 1800 if tier == "thorough" else 1200))
         kani_results.append((kc, kr))
         cmds.append(kr["cmd"])
         if kr["status"] == "undecided":
